@@ -3,18 +3,20 @@
     file part of what the writer believes it emitted, and that belief is the
     configuration of the result just written. *)
 From Perf Require Import Base.Bytes Base.B64 Base.Utf8 Base.Unicode Model.Name Model.Extract Model.Units
-  Model.Reader Model.Files Model.Writer Proofs.Units Proofs.ReaderSlots Proofs.Reader Proofs.WriterMap Proofs.WriterLines.
+  Model.Reader Model.Files Model.Writer Proofs.Units Proofs.ReaderSlots Proofs.Reader Proofs.WriterMap
+  Proofs.WriterLines Proofs.WriterClean.
 Local Open Scope N_scope.
 
-(** what must come back for a written result *)
-Definition rt_equiv (o : record) (r : result) : Prop :=
-  match o with
-  | RRes r' =>
+(** what must come back for a written record *)
+Definition rt_equiv (o : record) (w : record) : Prop :=
+  match o, w with
+  | RRes r', RRes r =>
       r_name r' = r_name r /\ r_iters r' = r_iters r /\
       map written (r_vals r') = map written (r_vals r) /\
       NoDup (keys (r_cfg r')) /\
       forall k, vlook (r_cfg r') k = fp (vlook (r_cfg r) k)
-  | _ => False
+  | RUnit e, RUnit u => up_meta e = up_meta u
+  | _, _ => False
   end.
 
 Lemma vlook_in_nodup R c : NoDup (keys R) -> In c R -> vlook R (c_key c) = Some (c_val c, c_file c).
@@ -26,30 +28,56 @@ Proof.
   exfalso. apply Hx. rewrite E. unfold keys. now apply in_map.
 Qed.
 
+(** the unit-metadata table as the set of its keys *)
+Definition ukey (m : umeta) : bytes * bytes := (u_unit m, u_key m).
+Definition ukeys (um : list umetap) : list (bytes * bytes) := map (fun e => ukey (up_meta e)) um.
+
+Lemma umap_find_fresh um tu k : ~ In (tu, k) (ukeys um) -> umap_find um tu k = None.
+Proof.
+  induction um as [|e um IH]; intros H; [reflexivity|]. cbn [umap_find find].
+  destruct (beq_spec (u_unit (up_meta e)) tu) as [E1|]; cbn [andb].
+  - destruct (beq_spec (u_key (up_meta e)) k) as [E2|].
+    + exfalso. apply H. left. unfold ukey. now rewrite E1, E2.
+    + apply IH. intros Hin. apply H. now right.
+  - apply IH. intros Hin. apply H. now right.
+Qed.
+
 Section WriterProofs.
 Variables is_space is_lower is_upper : N -> bool.
 Variable atoi : bytes -> option Z.
 Variable parse_float : bytes -> option b64.
 Variable fmt_g : b64 -> bytes.
 Hypothesis Hcolon : is_space 58 = false /\ is_upper 58 = false.
+Hypothesis Hlf : is_space 10 = true.
 
 Notation spec_step := (spec_step is_space is_lower is_upper atoi parse_float).
 Notation spec_lines := (spec_lines is_space is_lower is_upper atoi parse_float).
 Notation bench_ok := (bench_ok is_space atoi parse_float fmt_g).
 Notation key_ok := (key_ok is_space is_lower is_upper).
+Notation unit_ok := (unit_ok is_space).
 Notation render := (render fmt_g).
 
-(** configurations the format can carry: distinct keys, every key one the
-    reader recognises, file values non-empty and not starting with a blank *)
+Definition short (l : bytes) : Prop := N.of_nat (length l) < max_token.
+
+(** a key the reader recognises, short enough for a line of its own *)
+Definition kgood (k : bytes) : Prop := key_ok k /\ short (k ++ bs ":").
+(** a value the format can carry after that key: non-empty, not starting with
+    a blank, no LF, not ending in CR, the line under the scanner's limit *)
+Definition vgood (k v : bytes) : Prop := val_ok v /\ val_clean v /\ short (k ++ bs ": " ++ v).
+
 Definition cfg_wf (R : list cfg) : Prop :=
-  NoDup (keys R) /\ Forall (fun c => key_ok (c_key c)) R /\
-  Forall (fun c => c_file c = true -> val_ok (c_val c)) R.
-Definition WFres (r : result) : Prop := cfg_wf (r_cfg r) /\ bench_ok r.
+  NoDup (keys R) /\ Forall (fun c => kgood (c_key c)) R /\
+  Forall (fun c => c_file c = true -> vgood (c_key c) (c_val c)) R.
+
+(** a result the format can carry; the size clause bounds its own benchmark line *)
+Definition WFres (r : result) : Prop :=
+  cfg_wf (r_cfg r) /\ bench_ok r /\ short (render (WBench r)).
+Definition WFunit (u : umeta) : Prop := unit_ok u /\ short (render (WUnitL u)).
 
 Definition op_ok (o : wline) : Prop :=
   match o with
-  | WSet k v => key_ok k /\ val_ok v
-  | WDel k => key_ok k
+  | WSet k v => kgood k /\ vgood k v
+  | WDel k => kgood k
   | WBlank => True
   | _ => False
   end.
@@ -60,10 +88,10 @@ Proof. destruct v; [contradiction|discriminate]. Qed.
 Lemma cfg_wf_file_vals R : cfg_wf R -> file_vals_ok R.
 Proof.
   intros (_ & _ & H). unfold file_vals_ok. eapply Forall_impl; [|exact H]. cbn. intros c Hc Hf.
-  apply val_ok_nonempty; auto.
+  apply val_ok_nonempty. apply Hc; auto.
 Qed.
 
-Definition keys_ok (l : list cfg) : Prop := Forall (fun c => key_ok (c_key c)) l.
+Definition keys_ok (l : list cfg) : Prop := Forall (fun c => kgood (c_key c)) l.
 
 Lemma walk_ok H R : keys_ok H -> cfg_wf R ->
   Forall op_ok (fst (walk H R)) /\ keys_ok (snd (walk H R)).
@@ -72,11 +100,11 @@ Proof.
   inversion HH as [|? ? Hh HH']; subst. destruct (IH HH') as [IH1 IH2]. cbn [walk].
   destruct (walk H R) as [ls hv]. cbn [fst snd] in *.
   destruct (cfg_lookup R (c_key h)) as [c|] eqn:Ec.
-  - apply cfg_lookup_some in Ec as [_ Hin].
+  - apply cfg_lookup_some in Ec as [Ek Hin].
     destruct (same_cfg h c); cbn [fst snd]; [split; [auto|constructor; auto]|].
     split; [|constructor; auto].
     assert (Hset : c_file c = true -> op_ok (WSet (c_key h) (c_val c))).
-    { intros Ef. split; auto. rewrite Forall_forall in HvR. auto. }
+    { intros Ef. split; auto. rewrite Forall_forall in HvR. rewrite <- Ek. auto. }
     destruct (c_file c) eqn:Ef; [|destruct (c_file h)]; cbn [app]; auto; constructor; auto.
   - cbn [fst snd]. split; auto.
 Qed.
@@ -116,23 +144,46 @@ Proof.
   destruct (write_file_config w (r_cfg r)). reflexivity.
 Qed.
 
+(** ** every rendered line is clean: derived from the inputs *)
+Lemma op_line_clean o : op_ok o -> line_clean (render o).
+Proof.
+  destruct o as [k v|k| | |]; cbn [op_ok]; try contradiction.
+  - intros [[Hk _] (Hv & Hc & Hs)].
+    destruct (set_line_clean is_space is_lower is_upper atoi parse_float fmt_g Hcolon Hlf k v Hk Hv Hc) as [H1 H2].
+    split; [exact H1|]. split; [exact H2|exact Hs].
+  - intros [Hk Hs]. destruct (del_line_clean is_space is_lower is_upper atoi parse_float fmt_g Hcolon Hlf k Hk) as [H1 H2].
+    split; [exact H1|]. split; [exact H2|exact Hs].
+  - intros _. destruct (blank_line_clean fmt_g) as [H1 H2]. split; [exact H1|]. split; [exact H2|reflexivity].
+Qed.
+
+Lemma bench_clean r : bench_ok r -> short (render (WBench r)) -> line_clean (render (WBench r)).
+Proof.
+  intros Hb Hs. destruct (bench_line_clean is_space is_upper atoi parse_float fmt_g Hcolon r Hb) as [H1 H2].
+  split; [exact H1|]. split; [exact H2|exact Hs].
+Qed.
+
+Lemma unit_clean u : WFunit u -> line_clean (render (WUnitL u)).
+Proof.
+  intros [Hu Hs]. destruct (unit_line_clean is_space is_upper fmt_g Hcolon u Hu) as [H1 H2].
+  split; [exact H1|]. split; [exact H2|exact Hs].
+Qed.
+
 (** ** the reader on the emitted lines *)
 Variable fname : bytes.
-Variable um : list umetap.
 
-Lemma spec_step_op o m n : op_ok o -> spec_step fname n m um (render o) = ([], apply_op m o, um).
+Lemma spec_step_op o m um n : op_ok o -> spec_step fname n m um (render o) = ([], apply_op m o, um).
 Proof.
   destruct o as [k v|k| | |]; cbn [op_ok]; try contradiction; unfold Reader.spec_step.
-  - intros [Hk Hv]. rewrite (classify_set _ _ _ _ _ _ Hcolon) by assumption. reflexivity.
-  - intros Hk. rewrite (classify_del _ _ _ _ _ _ Hcolon) by assumption. reflexivity.
+  - intros [[Hk _] (Hv & _)]. rewrite (classify_set _ _ _ _ _ _ Hcolon) by assumption. reflexivity.
+  - intros [Hk _]. rewrite (classify_del _ _ _ _ _ _ Hcolon) by assumption. reflexivity.
   - intros _. rewrite classify_blank. reflexivity.
 Qed.
 
-Lemma spec_lines_ops ops : Forall op_ok ops -> forall m n rest,
+Lemma spec_lines_ops ops : Forall op_ok ops -> forall m um n rest,
   spec_lines fname n m um (map Line (map render ops) ++ rest) =
   spec_lines fname (n + Z.of_nat (length ops)) (apply_ops m ops) um rest.
 Proof.
-  induction 1 as [|o ops Ho _ IH]; intros m n rest.
+  induction 1 as [|o ops Ho _ IH]; intros m um n rest.
   - cbn. now rewrite Z.add_0_r.
   - cbn [map app Reader.spec_lines length]. rewrite spec_step_op by exact Ho.
     rewrite IH. cbn [app apply_ops fold_left].
@@ -140,7 +191,7 @@ Proof.
     destruct (spec_lines fname _ _ um rest) as [[rs e] um']. reflexivity.
 Qed.
 
-Lemma spec_lines_bench r m n rest : bench_ok r ->
+Lemma spec_lines_bench r m um n rest : bench_ok r ->
   spec_lines fname n m um (Line (render (WBench r)) :: rest) =
   let '(rs, e, um') := spec_lines fname (n + 1) m um rest in
   (RRes (mkResult m (r_name r) (r_iters r) (map (rv is_space) (map written (r_vals r))) fname (n + 1)) :: rs, e, um').
@@ -148,6 +199,31 @@ Proof.
   intros Hb. cbn [Reader.spec_lines]. unfold Reader.spec_step.
   rewrite (classify_bench _ _ _ _ _ _ _ Hb).
   destruct (spec_lines fname (n + 1) m um rest) as [[rs e] um']. reflexivity.
+Qed.
+
+Lemma parse_unit_field_kv k v : k <> [] -> ~ In x3d k -> parse_unit_field (k ++ x3d :: v) = UFKV k v.
+Proof.
+  intros Hne Hnot. unfold parse_unit_field. rewrite index_byte_app_notin by exact Hnot.
+  destruct k as [|b k]; [congruence|]. cbn [length].
+  change (S (length k)) with (length (b :: k)). rewrite firstn_app_exact.
+  replace (skipn (S (length (b :: k))) ((b :: k) ++ x3d :: v)) with v; [reflexivity|].
+  replace ((b :: k) ++ x3d :: v) with (((b :: k) ++ [x3d]) ++ v) by (rewrite <- app_assoc; reflexivity).
+  replace (S (length (b :: k))) with (length ((b :: k) ++ [x3d])) by (rewrite app_length; cbn; lia).
+  rewrite skipn_app, skipn_all, Nat.sub_diag. reflexivity.
+Qed.
+
+Lemma spec_lines_unit u m um n rest : unit_ok u -> ~ In (ukey u) (ukeys um) ->
+  spec_lines fname n m um (Line (render (WUnitL u)) :: rest) =
+  let e0 := mkUmetap u fname (n + 1) in
+  let '(rs, e, um') := spec_lines fname (n + 1) m (um ++ [e0]) rest in (RUnit e0 :: rs, e, um').
+Proof.
+  intros Hu Hfresh. pose proof Hu as (Htu & _ & Hk1 & Hk2 & _).
+  cbn [Reader.spec_lines]. unfold Reader.spec_step.
+  rewrite (classify_unit _ _ _ _ _ _ _ Hu). unfold unit_fields_of, Reader.unit_line.
+  cbn [Reader.unit_fields]. rewrite parse_unit_field_kv by assumption. rewrite <- Htu.
+  rewrite umap_find_fresh by exact Hfresh.
+  replace (mkUmeta (u_unit u) (u_key u) (u_orig u) (u_value u)) with u by (destruct u; reflexivity).
+  cbn zeta. destruct (spec_lines fname (n + 1) m (um ++ [mkUmetap u fname (n + 1)]) rest) as [[rs e] um']. reflexivity.
 Qed.
 
 Lemma written_rv p : written (rv is_space p) = p.
@@ -159,40 +235,74 @@ Proof.
   exfalso. unfold tidy in E. cbn in E. injection E as _ <-. discriminate.
 Qed.
 
-Theorem roundtrip_spec rs : forall w m n,
-  Forall WFres rs -> NoDup (keys (w_have w)) -> keys_ok (w_have w) -> Inv m (w_have w) ->
-  exists out,
-    spec_lines fname n m um (map Line (map render (fst (write_all w (map RRes rs))))) = (out, None, um) /\
-    Forall2 rt_equiv out rs.
+(** a well-formed stream: results and unit-metadata records; metadata keys
+    (tidied unit, key) are new with respect to [seen] and pairwise distinct *)
+Inductive WFhist : list (bytes * bytes) -> list record -> Prop :=
+| WFh_nil seen : WFhist seen []
+| WFh_res seen r recs : WFres r -> WFhist seen recs -> WFhist seen (RRes r :: recs)
+| WFh_unit seen u recs : WFunit (up_meta u) -> ~ In (ukey (up_meta u)) seen ->
+    WFhist (seen ++ [ukey (up_meta u)]) recs -> WFhist seen (RUnit u :: recs).
+
+(** the lines written for a well-formed stream are clean *)
+Lemma written_lines_clean recs : forall seen w, WFhist seen recs -> keys_ok (w_have w) ->
+  Forall line_clean (map render (fst (write_all w recs))).
 Proof.
-  induction rs as [|r rs IH]; intros w m n Hwf HnH HkH Hinv.
-  - exists []. split; [reflexivity|constructor].
-  - inversion Hwf as [|? ? [Hcfg Hbench] Hwf']; subst.
-    cbn [map write_all write_rec]. rewrite write_result_eq.
-    set (cp := cfg_part w (r_cfg r)).
-    destruct (write_all (mkWstate false (snd cp)) (map RRes rs)) as [l2 w2] eqn:E2. cbn [fst].
-    destruct (cfg_part_wf w (r_cfg r) HkH Hcfg) as [Hops Hkeys]. fold cp in Hops, Hkeys.
-    destruct (cfg_part_ok w (r_cfg r) m HnH (proj1 Hcfg) (cfg_wf_file_vals _ Hcfg) Hinv) as (Hn' & Hlook & Hinv').
-    fold cp in Hn', Hlook, Hinv'.
-    rewrite !map_app, <- app_assoc. rewrite spec_lines_ops by exact Hops.
-    cbn [map app]. rewrite spec_lines_bench by exact Hbench.
-    destruct (IH (mkWstate false (snd cp)) (apply_ops m (fst cp)) (n + Z.of_nat (length (fst cp)) + 1)%Z
-                 Hwf' Hn' Hkeys Hinv') as (out & Hout & Hf).
-    rewrite E2 in Hout. cbn [fst] in Hout. rewrite Hout.
-    eexists. split; [reflexivity|]. constructor; [|exact Hf].
-    cbn [rt_equiv r_name r_iters r_vals r_cfg]. repeat split; auto.
-    + rewrite map_map. rewrite <- (map_id (map written (r_vals r))) at 2. apply map_ext. apply written_rv.
-    + apply Hinv'.
-    + intros k. destruct Hinv' as [_ Hi]. rewrite Hi, Hlook. reflexivity.
+  induction recs as [|rec recs IH]; intros seen w Hwf HkH; [constructor|].
+  inversion Hwf as [|? r ? (Hcfg & Hbench & Hshort) Hwf'|? u ? Hu Hfresh Hwf']; subst.
+  - cbn [write_all write_rec]. rewrite write_result_eq.
+    destruct (cfg_part_wf w (r_cfg r) HkH Hcfg) as [Hops Hkeys].
+    specialize (IH seen (mkWstate false (snd (cfg_part w (r_cfg r)))) Hwf' Hkeys).
+    destruct (write_all (mkWstate false (snd (cfg_part w (r_cfg r)))) recs) as [l2 w2]. cbn [fst] in *.
+    rewrite !map_app. repeat (apply Forall_app; split); auto.
+    + apply Forall_map. eapply Forall_impl; [|exact Hops]. apply op_line_clean.
+    + constructor; [|constructor]. now apply bench_clean.
+  - cbn [write_all write_rec]. specialize (IH _ w Hwf' HkH).
+    destruct (write_all w recs) as [l2 w2]. cbn [fst app map] in *. constructor; auto. now apply unit_clean.
+Qed.
+
+Theorem roundtrip_spec recs : forall w m n um,
+  WFhist (ukeys um) recs -> NoDup (keys (w_have w)) -> keys_ok (w_have w) -> Inv m (w_have w) ->
+  exists out um',
+    spec_lines fname n m um (map Line (map render (fst (write_all w recs)))) = (out, None, um') /\
+    Forall2 rt_equiv out recs.
+Proof.
+  induction recs as [|rec recs IH]; intros w m n um Hwf HnH HkH Hinv.
+  - exists [], um. split; [reflexivity|constructor].
+  - inversion Hwf as [|? r ? (Hcfg & Hbench & Hshort) Hwf'|? u ? [Hu _] Hfresh Hwf']; subst.
+    + cbn [write_all write_rec]. rewrite write_result_eq.
+      set (cp := cfg_part w (r_cfg r)).
+      destruct (write_all (mkWstate false (snd cp)) recs) as [l2 w2] eqn:E2. cbn [fst].
+      destruct (cfg_part_wf w (r_cfg r) HkH Hcfg) as [Hops Hkeys]. fold cp in Hops, Hkeys.
+      destruct (cfg_part_ok w (r_cfg r) m HnH (proj1 Hcfg) (cfg_wf_file_vals _ Hcfg) Hinv) as (Hn' & Hlook & Hinv').
+      fold cp in Hn', Hlook, Hinv'.
+      rewrite !map_app, <- app_assoc. rewrite spec_lines_ops by exact Hops.
+      cbn [map app]. rewrite spec_lines_bench by exact Hbench.
+      destruct (IH (mkWstate false (snd cp)) (apply_ops m (fst cp)) (n + Z.of_nat (length (fst cp)) + 1)%Z um
+                   Hwf' Hn' Hkeys Hinv') as (out & um' & Hout & Hf).
+      rewrite E2 in Hout. cbn [fst] in Hout. rewrite Hout.
+      eexists _, um'. split; [reflexivity|]. constructor; [|exact Hf].
+      cbn [rt_equiv r_name r_iters r_vals r_cfg]. repeat split; auto.
+      * rewrite map_map. rewrite <- (map_id (map written (r_vals r))) at 2. apply map_ext. apply written_rv.
+      * apply Hinv'.
+      * intros k. destruct Hinv' as [_ Hi]. rewrite Hi, Hlook. reflexivity.
+    + cbn [write_all write_rec].
+      destruct (write_all w recs) as [l2 w2] eqn:E2. cbn [fst app map].
+      rewrite spec_lines_unit by assumption. cbn zeta.
+      assert (Hwf'' : WFhist (ukeys (um ++ [mkUmetap (up_meta u) fname (n + 1)])) recs).
+      { unfold ukeys. rewrite map_app. exact Hwf'. }
+      destruct (IH w m (n + 1)%Z _ Hwf'' HnH HkH Hinv) as (out & um' & Hout & Hf).
+      rewrite E2 in Hout. cbn [fst] in Hout. rewrite Hout.
+      eexists _, um'. split; [reflexivity|]. constructor; [reflexivity|exact Hf].
 Qed.
 
 Lemma rec_equiv_rt o o2 r : rec_equiv o o2 -> rt_equiv o2 r -> rt_equiv o r.
 Proof.
-  destruct o as [a| |], o2 as [b| |]; cbn; try contradiction.
-  intros ((Hn1 & Hn2 & Hl) & E1 & E2 & E3 & _ & _) (F1 & F2 & F3 & F4 & F5).
-  repeat split; try congruence.
-  - exact Hn1.
-  - intros k. rewrite <- F5. unfold vlook. now rewrite Hl.
+  destruct o as [a|a|], o2 as [b|b|], r as [c|c|]; cbn; try contradiction; try tauto.
+  - intros ((Hn1 & Hn2 & Hl) & E1 & E2 & E3 & _ & _) (F1 & F2 & F3 & F4 & F5).
+    repeat split; try congruence.
+    + exact Hn1.
+    + intros k. rewrite <- F5. unfold vlook. now rewrite Hl.
+  - intros -> H. exact H.
 Qed.
 
 End WriterProofs.
@@ -203,50 +313,56 @@ Variable atoi : bytes -> option Z.
 Variable parse_float : bytes -> option b64.
 Variable fmt_g : b64 -> bytes.
 Hypothesis Hcolon : is_space 58 = false /\ is_upper 58 = false.
+Hypothesis Hlf : is_space 10 = true.
 
-Notation WFres := (WFres is_space is_lower is_upper atoi parse_float fmt_g).
+Notation WFhist := (WFhist is_space is_lower is_upper atoi parse_float fmt_g).
 
 (** the round trip, through the model of the real reader, from any earlier
-    state of that reader *)
-Theorem roundtrip_history (rs : list result) (st : rstate) (fname : bytes) :
-  Forall WFres rs ->
-  Forall line_clean (map (render fmt_g) (fst (write_all w_init (map RRes rs)))) ->
+    state of that reader: results and unit metadata, in order *)
+Theorem roundtrip_history (recs : list record) (st : rstate) (fname : bytes) :
+  WFhist (ukeys (rs_units st)) recs ->
   exists out st',
-    read_file is_space is_lower is_upper atoi parse_float st fname [] (emit fmt_g (map RRes rs)) = (out, None, st') /\
-    Forall2 rt_equiv out rs.
+    read_file is_space is_lower is_upper atoi parse_float st fname [] (emit fmt_g recs) = (out, None, st') /\
+    Forall2 rt_equiv out recs.
 Proof.
-  intros Hwf Hclean.
-  destruct (read_file is_space is_lower is_upper atoi parse_float st fname [] (emit fmt_g (map RRes rs)))
+  intros Hwf.
+  destruct (read_file is_space is_lower is_upper atoi parse_float st fname [] (emit fmt_g recs))
     as [[out e] st'] eqn:E.
   destruct (reader_refines_linespec _ _ _ _ _ _ _ _ _ _ _ _ E) as (rs2 & Hls & Hf).
-  unfold Reader.linespec, emit, emit_lines in Hls. rewrite split_join_lines in Hls by exact Hclean.
-  destruct (roundtrip_spec is_space is_lower is_upper atoi parse_float fmt_g Hcolon (file_name fname) (rs_units st)
-              rs w_init (cm_labels []) 0%Z Hwf) as (out2 & Hout2 & Hf2).
+  unfold Reader.linespec, emit, emit_lines in Hls.
+  rewrite split_join_lines in Hls
+    by (eapply (written_lines_clean is_space is_lower is_upper atoi parse_float fmt_g Hcolon Hlf); [exact Hwf|constructor]).
+  destruct (roundtrip_spec is_space is_lower is_upper atoi parse_float fmt_g Hcolon (file_name fname)
+              recs w_init (cm_labels []) 0%Z (rs_units st) Hwf) as (out2 & um' & Hout2 & Hf2).
   { constructor. } { constructor. } { split; [constructor|reflexivity]. }
   rewrite Hout2 in Hls. injection Hls as <- <- _.
   exists out, st'. split; [reflexivity|].
-  clear - Hf Hf2. revert rs Hf2. induction Hf as [|o o2 l l2 Ho _ IH]; intros rs Hf2; inversion Hf2; subst; constructor.
+  clear - Hf Hf2. revert recs Hf2. induction Hf as [|o o2 l l2 Ho _ IH]; intros recs Hf2; inversion Hf2; subst; constructor.
   - eapply rec_equiv_rt; eauto.
   - apply IH. assumption.
 Qed.
 
 (** tool-internal configuration never comes back as file configuration *)
-Theorem internal_never_reappears (rs : list result) (st : rstate) (fname : bytes) :
-  Forall WFres rs ->
-  Forall line_clean (map (render fmt_g) (fst (write_all w_init (map RRes rs)))) ->
+Theorem internal_never_reappears (recs : list record) (st : rstate) (fname : bytes) :
+  WFhist (ukeys (rs_units st)) recs ->
   exists out st',
-    read_file is_space is_lower is_upper atoi parse_float st fname [] (emit fmt_g (map RRes rs)) = (out, None, st') /\
-    Forall2 (fun o r => match o with
-                        | RRes r' => forall c, In c (r_cfg r) -> c_file c = false -> cfg_lookup (r_cfg r') (c_key c) = None
-                        | _ => False end) out rs.
+    read_file is_space is_lower is_upper atoi parse_float st fname [] (emit fmt_g recs) = (out, None, st') /\
+    Forall2 (fun o w => match o, w with
+                        | RRes r', RRes r => forall c, In c (r_cfg r) -> c_file c = false ->
+                                                       cfg_lookup (r_cfg r') (c_key c) = None
+                        | RUnit _, RUnit _ => True
+                        | _, _ => False end) out recs.
 Proof.
-  intros Hwf Hclean. destruct (roundtrip_history rs st fname Hwf Hclean) as (out & st' & E & Hf).
+  intros Hwf. destruct (roundtrip_history recs st fname Hwf) as (out & st' & E & Hf).
   exists out, st'. split; [exact E|].
-  clear E Hclean. induction Hf as [|o r l l2 Ho _ IH]; [constructor|].
-  inversion Hwf as [|? ? [(Hn & _) _] Hwf']; subst. constructor; [|apply IH; exact Hwf'].
-  destruct o as [r'| |]; try contradiction. destruct Ho as (_ & _ & _ & _ & Hl).
-  intros c Hc Hfile. specialize (Hl (c_key c)). rewrite (vlook_in_nodup _ _ Hn Hc), Hfile in Hl. cbn in Hl.
-  unfold vlook in Hl. destruct (cfg_lookup (r_cfg r') (c_key c)); [discriminate|reflexivity].
+  clear E. revert Hwf. generalize (ukeys (rs_units st)).
+  induction Hf as [|o w l l2 Ho _ IH]; intros seen Hwf; [constructor|].
+  inversion Hwf as [|? r ? ((Hn & _) & _) Hwf'|? u ? _ _ Hwf']; subst.
+  - constructor; [|eapply IH; eauto].
+    destruct o as [r'| |]; try contradiction. destruct Ho as (_ & _ & _ & _ & Hl).
+    intros c Hc Hfile. specialize (Hl (c_key c)). rewrite (vlook_in_nodup _ _ Hn Hc), Hfile in Hl. cbn in Hl.
+    unfold vlook in Hl. destruct (cfg_lookup (r_cfg r') (c_key c)); [discriminate|reflexivity].
+  - constructor; [|eapply IH; eauto]. destruct o; try contradiction. exact I.
 Qed.
 
 End WriterTheorems.
